@@ -262,7 +262,7 @@ func loadContracts(path string) (*Contracts, error) {
 					return nil, fail(fmt.Errorf("loop ordinal: %v", err))
 				}
 				kind, r3 := splitWord(r2)
-				if kind != "invariant" && kind != "decreases" && kind != "modifies" && kind != "exit" {
+				if kind != "invariant" && kind != "decreases" && kind != "modifies" && kind != "exit" && kind != "step" {
 					return nil, fail(fmt.Errorf("loop clause kind %q", kind))
 				}
 				cl.Kind = "loop-" + kind
@@ -270,7 +270,7 @@ func loadContracts(path string) (*Contracts, error) {
 				if kind == "modifies" {
 					cl.Names = splitNames(r3)
 				} else {
-					if kind == "invariant" || kind == "exit" {
+					if kind == "invariant" || kind == "exit" || kind == "step" {
 						if k := labelEnd(r3); k > 0 {
 							cl.Label = strings.TrimSpace(r3[:k])
 							r3 = r3[k+1:]
